@@ -3,3 +3,4 @@
 //! of zero on the real tree must report its instance here on every run.
 #![allow(dead_code, unused_variables, clippy::all)]
 pub mod bad_bitmap;
+pub mod volatile_memory;
